@@ -32,9 +32,17 @@ def gen_case(rng, transport):
         step = S.Step("s", "s", std=k, arg=arg)
         exp = ("std", k, arg)
     flags = rng.choice([0, 0, 0, 1])
-    secs.append(S.script_text(b"a.b.M", [step, S.Step("r", "e", val="{66616c6c6261636b:T}")], False))
+    steps = [step, S.Step("r", "e", val="{66616c6c6261636b:T}")]
+    nrecv = 1
+    if rng.random() < 0.3:
+        # a More call: a continues-reply with parameters comes first; the error that follows must not inherit anything from it
+        flags, nrecv = 1, 2
+        steps = [S.Step("r", "e", cont=True, val="{6b657074:S%s;,61:D37;}" % b"from the first reply".hex())] + steps
+        exp = exp + ("after-continues",)
+    secs.append(S.script_text(b"a.b.M", steps, False))
     # the same call again from a caller with a typed reply struct (fields a, b, k, method, parameters, interface, parameter of other types than the error carries)
-    return " | ".join(secs + ["transport " + transport, "call %d %s {} 1" % (flags, b"a.b.M".hex()), "typedcall %s {}" % b"a.b.M".hex()]), exp
+    ops = ["call %d %s {} %d" % (flags, b"a.b.M".hex(), nrecv)] + (["typedcall %s {}" % b"a.b.M".hex()] if nrecv == 1 else [])
+    return " | ".join(secs + ["transport " + transport] + ops), exp
 
 
 def main(pid, argv):
@@ -66,9 +74,18 @@ def main(pid, argv):
         elif exp is not None:
             ops = il.split(" || ")[0].split(" ; ")
             op = ops[0]
-            rec = op.split("recv=")[1].strip() if "recv=" in op else "none"
-            trec = ops[1].split("tcall=")[1].strip() if len(ops) > 1 and "tcall=" in ops[1] else "none"
-            if exp[0] == "err":
+            recs = [x.strip() for x in op.split("recv=")[1:]]
+            after = exp[-1] == "after-continues"
+            if after:
+                exp = exp[:-1]
+                if not recs or not recs[0].startswith("ok 4 R"):
+                    bad = "the continues-reply that precedes the error arrived as %s" % (recs[:1],)
+                recs = recs[1:]
+            rec = recs[0] if recs else "none"
+            trec = ops[1].split("tcall=")[1].strip() if len(ops) > 1 and "tcall=" in ops[1] else ("none" if not after else rec if rec.startswith(("err ", "std ")) else "ok")
+            if bad:
+                pass
+            elif exp[0] == "err":
                 _, name, val = exp
                 ck.count("name:" + ("accepted" if S.error_name_ok(name) else "refused"))
                 if b"." in name:
